@@ -29,6 +29,8 @@ Inductive vclass :=
 | VBadLeaf (e : dnerr)         (* subject of certs[0] does not parse *)
 | VNoMatch
 | VPluginFail                  (* the verification plugin reported the trusted-identity check as failed *)
+| VStoreFail                   (* the chain does not lead to a certificate of the trust stores
+                                  (verifyAuthenticity failed; the identity check did not replace the error) *)
 | VPanic.                      (* certs[0] on an empty chain (never produced by an envelope) *)
 
 (* the loop over trustedIdentities: first error wins, x509.subject identities
@@ -126,7 +128,14 @@ Inductive input :=
 | IRender (d : list (astyle * attr)) (s : string)
                                                (* ParseDistinguishedName of the rendering s of d *)
 | IVerify (late log : bool) (ids chain : list string)
-| IPlugin (cap_ti cap_rev plugin_ok log : bool) (ids chain : list string).
+| IPlugin (cap_ti cap_rev plugin_ok log : bool) (ids chain : list string)
+| IUntrusted (log : bool) (ids chain : list string).
+   (* IUntrusted: the same Verify as IVerify false, but the trust store named by the
+      statement does not hold the root of the chain: verifyAuthenticity fails with a
+      SignatureAuthenticityError BEFORE the identity check.  processSignature returns
+      at once when that failure is critical (level strict); at level audit it goes on
+      to the identity check, which can only REPLACE the error by its own, never
+      clear it. *)
    (* IPlugin: the same Verify, but the signature names a verification plugin
       (critical attribute io.cncf.notary.verificationPlugin) that is installed
       and advertises the trusted-identity capability iff [cap_ti] and the
@@ -173,6 +182,15 @@ Definition model (i : input) : obs :=
           else verify_obs log ids chain
       | w => OConstruct w
       end
+  | IUntrusted log ids chain =>
+      match validate_ids ids with
+      | WOk =>
+          if log then
+            let v := verify_identities ids chain in
+            OVerify (if is_pass v then VStoreFail else v) false
+          else OVerify VStoreFail true
+      | w => OConstruct w
+      end
   end.
 
 (* ---------- boolean equalities ---------- *)
@@ -180,7 +198,7 @@ Definition model (i : input) : obs :=
 Definition vclass_eqb (a b : vclass) : bool :=
   match a, b with
   | VPass, VPass | VNoSep, VNoSep | VEmptyValue, VEmptyValue | VNoX509, VNoX509
-  | VNoMatch, VNoMatch | VPanic, VPanic | VPluginFail, VPluginFail => true
+  | VNoMatch, VNoMatch | VPanic, VPanic | VPluginFail, VPluginFail | VStoreFail, VStoreFail => true
   | VBadIdentity e, VBadIdentity e' | VBadLeaf e, VBadLeaf e' => dnerr_eqb e e'
   | _, _ => false
   end.
@@ -207,17 +225,21 @@ Definition obs_eqb (a b : obs) : bool :=
 Definition ascii_only (s : string) : bool :=
   forallb (fun c => (N_of_ascii c <? 128)%N) (list_ascii_of_string s).
 
+(* the input contract of the byte-level DN model: valid UTF-8 (C04_DN, Limits) *)
+Definition valid_utf8 (s : string) : bool := valid_utf8_bytes (list_ascii_of_string s).
+
 Definition keys_unique (m : amap) : bool := nodup_keys m.
 
 Definition wf (i : input) : bool :=
   match i with
-  | IParse s => ascii_only s
+  | IParse s => valid_utf8 s
   | ISubset a b => keys_unique a && keys_unique b          (* Go maps *)
   | IRender d s => true
   | IVerify _ _ ids chain =>
       negb (is_nil chain)                                   (* an envelope carries >= 1 certificate *)
   | IPlugin ti rev _ _ ids chain =>
       negb (is_nil chain) && (ti || rev)                    (* a plugin without verification capability is refused earlier *)
+  | IUntrusted _ ids chain => negb (is_nil chain)
   end.
 
 (* ---------- the property oracle (on observations only) ---------- *)
@@ -304,6 +326,10 @@ Definition spec_ok (i : input) (o : obs) : bool :=
       (* the native check is replaced only when the plugin owns trusted-identity verification *)
       (if ti then Bool.eqb (is_pass v) pok else verify_ok ids chain v)
       && Bool.eqb rej (negb log && negb (is_pass v))
+  | IUntrusted _ _ _, OConstruct _ => true
+  | IUntrusted log ids chain, OVerify v rej =>
+      (* authenticity never passes without a trusted chain, whatever the identities are *)
+      negb (is_pass v) && Bool.eqb rej (negb log)
   | _, _ => false
   end.
 
